@@ -311,15 +311,6 @@ func (t *TempoService) Values(ctx context.Context, tag string) (chan string, err
 	if err != nil {
 		return nil, err
 	}
-	if strings.HasPrefix(tag, "span.") {
-		tag = tag[5:]
-	}
-	if strings.HasPrefix(tag, ".") {
-		tag = tag[1:]
-	}
-	if len(tag) >= 10 && strings.HasPrefix(tag, "resource.") {
-		tag = tag[9:]
-	}
 	oRequest := t.GetValuesRequest(ctx, tag, conn)
 	query, err := oRequest.String(&sql.Ctx{
 		Params: map[string]sql.SQLObject{},
